@@ -210,6 +210,21 @@ func init() {
 		in.boundsUsed[name] = int(def)
 		return in.intC(def)
 	}
+	harnessAPI["vRaceDetect"] = func(fr *frame, args []Value) Value {
+		in := fr.in
+		in.ensureMonitor()
+		in.mon.race = true
+		in.ensureSched()
+		return nil
+	}
+	harnessAPI["vSchedMode"] = func(fr *frame, args []Value) Value {
+		fr.in.schedMode = fr.in.concreteString(args[0], "vSchedMode")
+		return nil
+	}
+	harnessAPI["vYield"] = func(fr *frame, args []Value) Value {
+		fr.in.schedPoint(fr, "yield")
+		return nil
+	}
 	harnessAPI["vRegister"] = func(fr *frame, args []Value) Value { return nil }
 	harnessAPI["vReach"] = func(fr *frame, args []Value) Value {
 		in := fr.in
@@ -348,6 +363,11 @@ func (in *Interp) runEntry(entry *ssa.Function) {
 	if init := entry.Pkg.Func("init"); init != nil {
 		in.call(nil, token.NoPos, init, nil)
 	}
+	defer func() {
+		if in.sched != nil {
+			in.sched.kill()
+		}
+	}()
 	in.call(nil, token.NoPos, entry, nil)
 	if in.sched != nil {
 		in.sched.drain(in)
